@@ -110,14 +110,15 @@ theorem C10_composite (p : Program) (hchk : PlanCheck.checkProgU p = true)
     (hm : p.methods[m]? = some gm) (hb : gm.body = some (.update srcIsPtr (.structc plans upd)))
     (s t : Ty) (htys : UpdTypes p gm srcIsPtr s t) (sfs tfs : Fields)
     (hs : under p.conv.env s = .struct sfs) (ht : under p.conv.env t = .struct tfs)
-    (src : Val) (fs : List (S × Val)) (hsrc : src = .struct fs ∨ ∃ l, src = .ptr l (.struct fs))
+    (src : Val) (fs : List (S × Val))
+    (hsrc : src = .struct fs ∨ ((∃ l, src = .ptr l (.struct fs)) ∧ noWholeSource plans = true))
     (hwt : WT p.conv.env (.struct fs) s) (old : Val) (hold : WT p.conv.env old t)
     (fuel : Nat) (fr : Frame) (n : Nat) (v' : Val) (n' : Nat)
     (hev : evalConv p fuel fr (.structc plans upd) src old n = .ok (v', n')) :
     ∃ ws, v' = .struct ws ∧
       ∀ (i : Nat) (tf : FieldInfo) (tty : Ty), tfs.toList[i]? = some (tf, tty) →
         ∃ f, plans.toList[i]? = some f ∧
-          FieldOutcome p.conv.env (CtorSig p) sfs.toList fs tf tty (oldFields (erase old)) (erase.eraseFields ws) f := by
+          FieldOutcome p.conv.env (CtorSig p) s (.struct fs) tf tty (oldFields (erase old)) (erase.eraseFields ws) f := by
   obtain ⟨ws, hv', himg⟩ := update_struct_onto p (checkProgU_sound p hchk) m gm srcIsPtr plans upd hm hb s t htys sfs tfs hs ht
     src fs hsrc hwt old (oldOK_of_WT hold) fuel fr n v' n' hev
   exact ⟨ws, hv', fun i tf tty hi => himg.outcome i tf tty hi⟩
@@ -151,11 +152,12 @@ theorem C10_composite_run (p : Program) (hchk : PlanCheck.checkProgU p = true)
     (src : Val) (l : Loc) (old : Val) (hold : WT p.conv.env old t) (fuel : Nat) (r : Val)
     (hrun : runMethod p m [src, .ptr l old] fuel = .ok r) :
     (srcIsPtr = true → src = .nil → r = .ptr l old) ∧
-    (∀ fs, (src = .struct fs ∨ ∃ l', src = .ptr l' (.struct fs)) → WT p.conv.env (.struct fs) s →
+    (∀ fs, (src = .struct fs ∨ ((∃ l', src = .ptr l' (.struct fs)) ∧ (srcIsPtr = true ∨ noWholeSource plans = true))) →
+      WT p.conv.env (.struct fs) s →
       ∃ ws, r = .ptr l (.struct ws) ∧
         ∀ (i : Nat) (tf : FieldInfo) (tty : Ty), tfs.toList[i]? = some (tf, tty) →
           ∃ f, plans.toList[i]? = some f ∧
-            FieldOutcome p.conv.env (CtorSig p) sfs.toList fs tf tty (oldFields (erase old)) (erase.eraseFields ws) f) := by
+            FieldOutcome p.conv.env (CtorSig p) s (.struct fs) tf tty (oldFields (erase old)) (erase.eraseFields ws) f) := by
   unfold runMethod at hrun
   simp [hm, hb, ha, hsu, htu, List.zip, List.find?] at hrun
   refine ⟨?_, ?_⟩
@@ -167,7 +169,7 @@ theorem C10_composite_run (p : Program) (hchk : PlanCheck.checkProgU p = true)
   · intro fs hsrc hwt
     have key : ∃ nv n1, evalConv p fuel { self := m, ctx := [], idx := [], keys := [], parent := updParent srcIsPtr src }
           (.structc plans upd) (updSource srcIsPtr src) old 0 = .ok (nv, n1) ∧ r = .ptr l nv := by
-      rcases hsrc with rfl | ⟨l', rfl⟩
+      rcases hsrc with rfl | ⟨⟨l', rfl⟩, _⟩
       all_goals
         simp only [Bool.false_eq_true, and_false, if_false] at hrun
         split at hrun
@@ -176,11 +178,15 @@ theorem C10_composite_run (p : Program) (hchk : PlanCheck.checkProgU p = true)
         · cases hrun
         · cases hrun
     obtain ⟨nv, n1, hc, hr⟩ := key
-    have hsrc' : updSource srcIsPtr src = .struct fs ∨ ∃ l', updSource srcIsPtr src = .ptr l' (.struct fs) := by
-      rcases hsrc with rfl | ⟨l', rfl⟩
+    have hsrc' : updSource srcIsPtr src = .struct fs ∨
+        ((∃ l', updSource srcIsPtr src = .ptr l' (.struct fs)) ∧ noWholeSource plans = true) := by
+      rcases hsrc with rfl | ⟨⟨l', rfl⟩, hor⟩
       · left; cases srcIsPtr <;> rfl
       · cases srcIsPtr
-        · right; exact ⟨l', rfl⟩
+        · right
+          rcases hor with h | h
+          · cases h
+          · exact ⟨⟨l', rfl⟩, h⟩
         · left; rfl
     obtain ⟨ws, hv', hall⟩ := C10_composite p hchk m gm srcIsPtr plans upd hm hb s t htys sfs tfs hs ht (updSource srcIsPtr src) fs hsrc' hwt old hold
       fuel _ 0 nv n1 hc
